@@ -4,8 +4,10 @@ CONSTANTS
   Ticks = TRUE
   SkipFix = TRUE
   CctFix = TRUE
+  SelfFailFix = TRUE
   QMax = 100
   PPInterval = 2
   TestMode = TRUE
+  FaultKinds = {"none", "req", "param", "store", "rcstore", "die", "cancel"}
   MaxEternal = 100000
 CHECK_DEADLOCK FALSE
